@@ -69,6 +69,16 @@ def strategy(ctx):
     return one()
 
 
+def _scale_tol(ref, pert):
+    """Relative tolerance for comparing output scales: 100 x the attainable accuracy (perturbed reference), floor 1e-7."""
+    if pert is None:
+        return None
+    sr, sp = np.asarray(ref["scale"], float), np.asarray(pert["scale"], float)
+    att = float(np.max(np.abs(sp - sr) / np.maximum(np.abs(sr), 1e-300)))
+    tol = max(1e-7, ssmcase.FACTOR * att)
+    return tol if tol <= 1e-3 else None
+
+
 def _restrict(case):
     """Impose the structure of class b (decoupled) / c (Jacobian = phi * I) on the coefficient matrix."""
     cfg = case["cfg"]
@@ -144,8 +154,11 @@ def check_case(case):
                                   lib_idx=list(range(len(grid))), idx=list(range(len(grid))), tol0=tol0)
         if scales:
             a, b = np.asarray(out["scale"], float), np.asarray(out_d["scale"], float)
-            if a.shape != b.shape or not np.allclose(a, b, rtol=1e-7, atol=0):
-                res.violate(f"{tag}:scale", f"{tag}: output scales differ ({a.reshape(-1)[:3]} vs {b.reshape(-1)[:3]})")
+            rt = _scale_tol(ref, pert)
+            if rt is None:
+                res.label(f"{tag}:scale_illcond")
+            elif a.shape != b.shape or not np.allclose(a, b, rtol=rt, atol=0):
+                res.violate(f"{tag}:scale", f"{tag}: output scales differ beyond {rt:.1e} ({a.reshape(-1)[:3]} vs {b.reshape(-1)[:3]})")
 
     if klass == "a":
         out_i = ssmcase.run_library(_lib(case, "isotropic"))
@@ -183,7 +196,8 @@ def check_case(case):
             if cfg["calib"] != "none":
                 sb = np.asarray(out_b["scale"], float)[..., i].reshape(-1)
                 ss = np.asarray(out_s["scale"], float).reshape(-1)
-                if sb.shape != ss.shape or not np.allclose(sb[-1], ss[-1], rtol=1e-6, atol=0):
+                rt = _scale_tol(ref_i, pert_i)
+                if rt is not None and (sb.shape != ss.shape or not np.allclose(sb[-1], ss[-1], rtol=max(rt, 1e-6), atol=0)):
                     res.violate("b:scale", f"dimension {i}: block-diagonal scale {sb[-1]!r} vs scalar solve {ss[-1]!r}")
     else:
         out_i = ssmcase.run_library(_lib(case, "isotropic"))
@@ -237,7 +251,7 @@ def _adaptive(res, case):
     if not np.all(np.isfinite(outs["dense"]["mean"])):
         raise common.Inconclusive("solve not finite (method limit at this tolerance)")
     res.nontrivial = len(sd) >= 3
-    if len(sd) != len(si) or not np.allclose(np.asarray(sd), np.asarray(si), rtol=1e-8, atol=0):
+    if len(sd) != len(si) or not np.allclose(np.asarray(sd), np.asarray(si), rtol=1e-5, atol=1e-12):
         # a borderline acceptance decision may legitimately flip under different rounding
         margin = min(min(abs(e[3] - 1.0) for e in errs_d), min(abs(e[3] - 1.0) for e in errs_i))
         if margin < 1e-6:
@@ -252,10 +266,13 @@ def _adaptive(res, case):
     except common.Inconclusive:
         pert = None
     K_ = len(save_at)
+    # step sizes agree up to rounding-level jitter; covariances scale like h^(2q+1), so that jitter enters the comparison
+    jitter = float(np.max(np.abs(np.asarray(sd) - np.asarray(si)) / np.maximum(np.abs(np.asarray(sd)), 1e-300))) if sd else 0.0
     ssmcase.compare_marginals(res, "adaptive:dense_vs_isotropic", dense_case, outs["isotropic"]["mean"], outs["isotropic"]["cov"], ref, pert,
                               expected=(outs["dense"]["mean"], outs["dense"]["cov"]), lib_idx=list(range(K_)), idx=list(range(K_)),
-                              tol0=1e-7 if smooth else 1e-8)
+                              tol0=max(1e-7 if smooth else 1e-8, 100.0 * cfg["n"] * jitter))
     sa, sb = np.asarray(outs["isotropic"]["scale"], float), np.asarray(outs["dense"]["scale"], float)
-    if sa.shape != sb.shape or not np.allclose(sa, sb, rtol=1e-6, atol=0):
+    rt = _scale_tol(ref, pert)
+    if rt is not None and (sa.shape != sb.shape or not np.allclose(sa, sb, rtol=max(rt, 1e-6), atol=0)):
         res.violate("adaptive:scale", "dense and isotropic output scales differ in an adaptive run")
     return res
